@@ -102,17 +102,9 @@ Proof.
     cbn [constraint_f1] in Hc. rewrite !andb_true_iff in Hc. destruct Hc as [[Hf Hl] _]. apply Nat.ltb_lt in Hl.
     unfold apply_exclude. rewrite (f1_var_lists_none fb HF1 f l HT Hf Hl). cbn [cbind]. eexists. reflexivity.
   - (* Pin *)
-    cbn [constraint_f1] in Hc. rewrite !andb_true_iff in Hc. destruct Hc as [[[[Hf Hcx] Hl] Hg] Hs].
-    apply Nat.ltb_lt in Hl. apply Nat.eqb_eq in Hs. apply negb_true_iff in Hcx. destruct (geom_ok_some fb wb Hg) as [rs Ers].
-    unfold apply_pin. rewrite (f1_trial_numbers fb f index wb rs Hs Ers).
-    destruct (flat_map _ rs) as [|p ps]; [eexists; reflexivity|].
-    assert (Evars : forall pl, cmapM (fun t => if negb (applies_at fb f (t + 1)) then COk [[1%Z]; [(-1)%Z]]
-                                               else v <~ get_variable fb (t + 1) f l ;; COk [[zn v]]) pl
-                               = COk (map (fun t => [[zn (gvar fb t f l)]]) pl)).
-    { induction pl as [|a pl IH]; [reflexivity|]. cbn [cmapM map].
-      rewrite Nat.add_1_r. change (applies_at fb f (S a)) with (lappl fb f a). rewrite (lappl_simple fb HF1 f a Hf Hcx). cbn [negb].
-      rewrite (f1_get_variable fb HF1 f l a Hf Hl). cbn [cbind]. rewrite IH. reflexivity. }
-    rewrite Evars. cbn [cbind]. eexists. reflexivity.
+    destruct (pin_guard fb HF1 HT _ _ _ _ Hc) as (Hf & Hl & _ & ps & Ep & Hpb).
+    unfold apply_pin. rewrite Ep. destruct ps as [|p ps']; [eexists; reflexivity|].
+    rewrite (pin_cmapM fb HF1 HT f l (p :: ps') Hf Hl). cbn [cbind]. eexists. reflexivity.
   - (* Sequential *) exact (sequential_total fb HF1 HT _ fresh Hc).
 Qed.
 
